@@ -178,7 +178,10 @@ fn child_main(sc: &Scenario, fd: i32) -> ! {
             w.set_pure_out(out);
             0
         } else {
-            crate::product::run()
+            let code = crate::product::run();
+            // what the Rust runtime does after `main`: flush stdout once, ignoring errors
+            pasfmt_orchestrator::verif_seam::flush_stdout_at_exit();
+            code
         }
     });
     let exit = match outcome {
